@@ -293,11 +293,7 @@ func runC13(c *Ctx) {
 		if len(tmp) != 1 {
 			c.Fail(ra, "lib/atomicfile.New tempfile", p.Pos(nw.Pos()), fmt.Sprintf("%d temp-file creations, expected 1", len(tmp)))
 		} else {
-			dirArg := tmp[0].Common().Args[0]
-			okDir := false
-			if dc, ok := dirArg.(*ssa.Call); ok && p.calleeName(dc.Common()) == "path/filepath.Dir" && len(nw.Params) > 0 && dc.Call.Args[0] == nw.Params[0] {
-				okDir = true
-			}
+			okDir := atomicTempInDestDir(p, nw, tmp[0])
 			c.Check(okDir, ra, "lib/atomicfile.New tempdir", p.Pos(tmp[0].Pos()), "temp file created in filepath.Dir(dest): same filesystem, rename is atomic", "temp file is not created in the destination's directory (rename may cross filesystems / not be atomic)")
 		}
 	}
@@ -787,4 +783,15 @@ func c13Classifiers(p *Prog) []*ssa.Function {
 		out = append(out, fn)
 	}
 	return out
+}
+
+// atomicTempInDestDir: the temporary file of atomicfile.New is created in filepath.Dir(dest) - the
+// directory of the destination (".", not $TMPDIR, for a bare file name), so that the rename stays
+// on one filesystem. Shared by C13 R13a and C12 R12l.
+func atomicTempInDestDir(p *Prog, nw *ssa.Function, tmp ssa.CallInstruction) bool {
+	dirArg := tmp.Common().Args[0]
+	if dc, ok := dirArg.(*ssa.Call); ok && p.calleeName(dc.Common()) == "path/filepath.Dir" && len(nw.Params) > 0 && dc.Call.Args[0] == nw.Params[0] {
+		return true
+	}
+	return false
 }
